@@ -231,6 +231,8 @@ def calc_spec(cfg):
              3: ['FIB', 'BIR', 'CTR', 'EIR', 'RINFL', 'PTR', 'RITC', 'GTR', 'inflrateconstruction']}[cfg['em']]
     s += [(f'economics.{r}', 'real', 0.001, 0.5) for r in rates]
     s += [('economics.AnnualLicenseEtc', 'real', -100, 100), ('economics.TaxRelief', 'real', 0, 100)]      # annual fees / tax relief are part of the reported O&M
+    if cfg['em'] == 2:
+        s += [('economics.discount_initial_year_cashflow', 'bool', None, None)]      # the NPV convention flag must not reach the levelized cost
     for p in c04.products_of(cfg['kind']):
         s += [(f'surfaceplant.{c04.PRODUCTS[p]}[{i}]', 'real', None, None) for i in range(L)]
     for j in range(cfg.get('addon', 0)):
